@@ -79,20 +79,12 @@ static bool kid_abbrev(const std::string &kid, const std::string &keysig) {
 struct Counters { unsigned long verify = 0, decrypt = 0, check = 0, sign = 0, encrypt = 0, mutants = 0; } cnt;
 
 // ---- recorded calls ------------------------------------------------------------------------------------
-static bool square_is_zero(const TMCG_PublicKey &pub, const std::string &sig) {
-	Z v, t; std::string kid;
-	if (!frame_value(sig, kid, v.v)) return false;
-	if (!mpz_sgn(pub.m)) return false;
-	mpz_mul(t.v, v.v, v.v); mpz_mod(t.v, t.v, pub.m);
-	return mpz_sgn(t.v) == 0;
-}
 static bool do_verify(TMCG_PublicKey &pub, const std::string &data, const std::string &sig, bool rec = true) {
 	hl_begin();
 	bool ok = pub.verify(data, sig);
 	std::string tab = hl_end();
 	cnt.verify++;
-	// a zero square makes mpz_export write nothing: the verdict then depends on stale heap contents (see docs); no REC
-	if (rec && !square_is_zero(pub, sig))
+	if (rec)
 		Rec("verify").z(pub.m).b(pub.sig).b(data).b(sig).t(tab).t(ok ? "A" : "R");
 	return ok;
 }
@@ -146,7 +138,7 @@ static bool do_check(TMCG_PublicKey &pub, bool rec = true) {
 	bool ok = pub.check();
 	std::string tab = hl_end();
 	cnt.check++;
-	if (rec && !square_is_zero(pub, pub.sig))
+	if (rec)
 		Rec("check").b(pub.name).b(pub.email).b(pub.type).z(pub.m).z(pub.y).b(pub.nizk).b(pub.sig).t(tab).t(ok ? "1" : "0");
 	return ok;
 }
@@ -289,7 +281,7 @@ static void sig_tests(TMCG_SecretKey &sec, TMCG_PublicKey &pub, TMCG_SecretKey &
 			if (do_verify(other, data, sg)) propfail("verify-otherkey", "signature accepted under a different key: sig=" + sg);
 			{ std::string s2 = "sig|" + other.keyid() + "|" + val + "|";
 			  if (do_verify(other, data, s2)) propfail("verify-otherkey", "signature accepted under a different key (key id patched): sig=" + s2); }
-			// stale export buffer: a value whose square is zero makes mpz_export write nothing; back-to-back raw calls
+			// regression for fix 5f58cf8 (stale export buffer): a value with zero square right after a valid verification of the same data
 			{ std::string zs = "sig|" + kid + "|" + std::string(S(v.v).size(), '0') + "|", ms = "sig|" + kid + "|" + S(pub.m) + "|";   // same text length: same allocation pattern
 			  bool a = pub.verify(data, sg), z = pub.verify(data, zs), a2 = pub.verify(data, sg), zm = pub.verify(data, ms);
 			  cnt.verify += 4;
